@@ -14,12 +14,13 @@ CONSTANTS
   SlewMax = 200
   MaxSamples = 1
   Ghosts = FALSE
+  Readd = FALSE
   OffPos = {0, 2}
   OffNeg = {}
-  LeapVals = {"none", "59"}
+  LeapVals = {"none"}
   Wides = {FALSE, TRUE}
   MaxChan = 1
-  Bound = 4
+  Bound = 2
   UsableVals = {TRUE, FALSE}
 INIT GenInit
 NEXT GenNext
